@@ -90,8 +90,10 @@ void decorate(Packet& p, uint64_t ts)
 Packet cmPacket(uint16_t dev, uint64_t ts)
 {
     ASAM::CMP::CaptureModulePayload pl;
-    pl.setData("dev", std::to_string(ts), "hw", "sw", {});
-    pl.setUptime(ts);
+    // the payload is one of six (a cyclic status message that often has not changed since the last one) while the header
+    // attributes around it are different every time
+    pl.setData("dev", std::to_string(ts % 3), "hw", "sw", {});
+    pl.setUptime(ts % 2);
     Packet p;
     p.setPayload(pl);
     p.setDeviceId(dev);
@@ -104,14 +106,16 @@ Packet ifPacket(uint16_t dev, uint32_t ifid, uint64_t ts)
 {
     ASAM::CMP::InterfacePayload pl;
     pl.setInterfaceId(ifid);
-    pl.setMsgTotalRx(static_cast<uint32_t>(ts));
+    pl.setMsgTotalRx(static_cast<uint32_t>(ts % 3));
     uint8_t ids[3] = {1, 2, 3};
-    pl.setData(ids, static_cast<uint16_t>(ts % 4), nullptr, 0);
+    pl.setData(ids, static_cast<uint16_t>((ts / 3) % 2), nullptr, 0);
     Packet p;
     p.setPayload(pl);
     p.setDeviceId(dev);
     p.setTimestamp(ts);
-    p.setInterfaceId(ifid);
+    // attributes that do not travel on the wire for a status message but are part of the packet's value
+    p.setInterfaceId(ts % 2 ? ifid : static_cast<uint32_t>(ts * 2654435761u));
+    p.setVendorId(static_cast<uint16_t>(ts * 40503u));
     decorate(p, ts);
     return p;
 }
